@@ -390,19 +390,19 @@ func (d *DNSFilter) Settings() (s *Settings) {
 	}
 }
 
-// WriteDiskConfig - write configuration
+// WriteDiskConfig writes the current configuration into c.  The copy is made
+// under both configuration mutexes, since the structure contains the fields
+// protected by each of them.  They are locked for writing, because c may point
+// to the configuration d has been created with.
 func (d *DNSFilter) WriteDiskConfig(c *Config) {
-	func() {
-		d.confMu.Lock()
-		defer d.confMu.Unlock()
+	d.conf.filtersMu.Lock()
+	defer d.conf.filtersMu.Unlock()
 
-		*c = *d.conf
-		c.Rewrites = cloneRewrites(c.Rewrites)
-	}()
+	d.confMu.Lock()
+	defer d.confMu.Unlock()
 
-	d.conf.filtersMu.RLock()
-	defer d.conf.filtersMu.RUnlock()
-
+	*c = *d.conf
+	c.Rewrites = cloneRewrites(c.Rewrites)
 	c.Filters = slices.Clone(d.conf.Filters)
 	c.WhitelistFilters = slices.Clone(d.conf.WhitelistFilters)
 	c.UserRules = slices.Clone(d.conf.UserRules)
